@@ -89,6 +89,7 @@ type CallSpec struct {
 	Timeout time.Duration       `json:"timeout,omitempty"`
 	AliasMD bool                `json:"alias_md,omitempty"` // the handler reuses one metadata object for all its SetHeader (and one for all its SetTrailer) calls, refilling it in between
 	BothWays bool               `json:"both_ways,omitempty"` // C11: abandoned with traffic pending in both directions
+	SeqCaller bool              `json:"seq_caller,omitempty"` // C11: a client-streaming caller that sends everything and only then receives (marker for probes)
 	Stub    bool                `json:"stub,omitempty"` // server-streaming: the caller behaves like the generated code - if the request's SendMsg or the CloseSend fails it gets (nil, err) and never sees the stream
 	BadReply int                `json:"bad_reply,omitempty"` // unary: 1 the handler returns a message the codec refuses (invalid UTF-8 in a string field), 2 a nil reply with a nil error
 	PreDone int                 `json:"predone,omitempty"` // the caller's context is already finished when the call starts: 1 cancelled, 2 deadline passed
